@@ -95,7 +95,7 @@ def variant_of(desc: dict) -> str:
         return "fault:%s:%s" % (desc["fault"]["site"], desc["fault"]["exc"])
     if desc.get("stop_at"):
         return "stop"
-    if desc.get("ctrlc_at"):
+    if desc.get("ctrlc_at") or desc.get("ctrlc_empty_at"):
         return "ctrlc"
     return "plain"
 
@@ -176,6 +176,11 @@ def expand(ctx: Ctx, pid: str, fam: list[dict], rng: random.Random) -> tuple[lis
         # Ctrl-C at the consumer of the stateful phase (a stop request like EventStream.stop)
         bases = bases + [{"ops": ["ok"], "links": lk, "phases": ["stateful"], "workers": 1, "max_failures": 0, "cof": False,
                           "unique": False, "ctrlc_positions": True} for lk in ("ok", "bad")]
+        # a step whose answer fails two checks at once: the failure counter jumps over the limit within one step
+        bases = bases + [{"ops": ["ok"], "links": "bad", "phases": ["stateful"], "workers": 1, "max_failures": mf, "cof": False,
+                          "unique": False, "two_checks": True} for mf in ((1, 2) if quick else (1, 2, 3))]
+        bases = bases + [{"ops": ["bad", "ok"], "links": "none", "phases": ["fuzzing"], "workers": w, "max_failures": 1, "cof": False,
+                          "unique": False, "two_checks": True} for w in (1, 2)]
         # stateful phase + --max-failures + a transient internal error (errored scenarios vs. the limit)
         bases = bases + [{"ops": ["ok"], "links": "bad", "phases": ["stateful"], "workers": 1, "max_failures": 1, "cof": False,
                           "unique": False, "mf_fault": occ} for occ in ((1, 2) if quick else (1, 2, 3, 4, 6))]
@@ -221,6 +226,7 @@ def variants(base: dict, ref: dict, recipe: dict, rng: random.Random) -> list[di
         if recipe["ctrlc"] != "all":
             positions = sorted(common.sample(rng, positions, recipe["ctrlc"]))
         out += [dict(base, ctrlc_at=k) for k in positions]
+        out += [dict(base, ctrlc_empty_at=k) for k in (1, 2, 4)]      # Ctrl-C during the consumer's idle poll
     if recipe["faults"]:
         sites = list(FAULT_SITES_UNIT)   # checks.run also fires inside the stateful phase
         combos = [(s, o, e) for s in sites for o in (1, 2, 4) for e in FAULT_EXC
